@@ -10,24 +10,26 @@ use ldpc_toolbox::simulation::puncturing::Puncturer;
 def build(tier, seed):
     items = []
     if tier == "quick":
-        shapes = [(1, 1), (1, 3), (2, 1), (2, 2), (3, 2), (2, 3), (4, 2), (3, 3)]
-        pats = [p for n in (1, 2, 3) for p in itertools.product([False, True], repeat=n) if any(p)]
-        pats += [(True, True, False, True, False), (False, False, False, True), (False, True, True, False, True)]
-        bss = [1, 2]
+        shapes = [(1, 1), (1, 3), (2, 1), (2, 2), (3, 2), (2, 3)]
+        p3 = [p for n in (1, 2, 3) for p in itertools.product([False, True], repeat=n) if any(p)]
+        cases = [(p, 1) for p in p3] + [(p, 2) for p in [(True, True, False), (True, False, True), (False, True, True),
+                                                          (True, True, False, True, False), (False, False, False, True), (False, True, True, False, True)]]
     else:
         shapes = [(c, r) for c in range(1, 7) for r in range(1, 6) if c * r <= 20]
         pats = [p for n in (1, 2, 3, 4, 5) for p in itertools.product([False, True], repeat=n) if any(p)]
-        bss = [1, 2, 3]
+        cases = [(p, bs) for p in pats for bs in (1, 2, 3)]
+    pats = sorted(set(p for p, _ in cases))
+    bss = sorted(set(b for _, b in cases))
     for c, r in shapes:
         for back in (False, True):
             for ty in (["u8"] if (tier == "quick" and (c, r) != (3, 2)) else ["u8", "u32"]):
                 hn = "c15_il_%s_c%dr%d_%s" % (ty, c, r, "bwd" if back else "fwd")
                 items.append((Harness(hn, {"columns": c, "rows": r, "backward": back, "element": ty, "input": "all %d-element vectors" % (c * r),
-                                            "oracle": "out[r*C+c] == in[c*R+r] (reversed columns if backward); deinterleave∘interleave == id == interleave∘deinterleave"},
+                                            "oracle": "out[r*C+c] == in[c*R+r] (reversed columns if backward); deinterleave(interleave(x)) == x (the index law makes interleave a bijection, so this is the two-sided inverse)"},
                                       1.0 + c * r * 0.7),
-                              "crate::c15_interleave!(%s, %s, %d, %d, %s, %d);" % (hn, ty, c, r, "true" if back else "false", max(c * r * 4, 8) + 3)))
-    for p in pats:
-        for bs in bss:
+                              "crate::c15_interleave!(%s, %s, %d, %d, %s, %d);" % (hn, ty, c, r, "true" if back else "false", max(c * r * 4, 17) + 3)))
+    for p, bs in cases:
+        if True:
             ps = "".join("1" if b else "0" for b in p)
             hn = "c15_punct_p%s_b%d" % (ps, bs)
             lit = "[" + ", ".join("true" if b else "false" for b in p) + "]"
@@ -43,4 +45,4 @@ def build(tier, seed):
         "stubs": [],
         "assumptions": ["the pattern and shape are concrete per harness (they determine allocation sizes = structure); contents are fully symbolic"],
     }
-    return {"prelude": PRELUDE, "items": items, "meta": meta, "nshards": 14, "timeout": 600 if tier == "quick" else 3000}
+    return {"prelude": PRELUDE, "items": items, "meta": meta, "nshards": 10, "timeout": 600 if tier == "quick" else 3000}
